@@ -1341,6 +1341,25 @@ def thread_none_sentinels(modules, known, rep):
                                 blk.body = [ast.copy_location(ast.Pass(), blk)]
                         ast.fix_missing_locations(x)
                     stmts[i - 1:i + 1] = new_s1
+
+                    def drop_dead(block):
+                        # `t = None` directly followed by another plain assignment of t that does not read t: the sentinel was only there to be tested
+                        k2 = 0
+                        while k2 + 1 < len(block):
+                            a_, b_ = block[k2], block[k2 + 1]
+                            if isinstance(a_, ast.Assign) and len(a_.targets) == 1 and isinstance(a_.targets[0], ast.Name) and a_.targets[0].id == t \
+                                    and isinstance(a_.value, ast.Constant) and a_.value.value is None \
+                                    and isinstance(b_, ast.Assign) and len(b_.targets) == 1 and isinstance(b_.targets[0], ast.Name) and b_.targets[0].id == t \
+                                    and not any(isinstance(n, ast.Name) and n.id == t for n in ast.walk(b_.value)):
+                                del block[k2]
+                                continue
+                            k2 += 1
+                        for b_ in block:
+                            for fld2 in ("body", "orelse", "finalbody"):
+                                sub = getattr(b_, fld2, None)
+                                if isinstance(sub, list) and sub and isinstance(sub[0], ast.stmt):
+                                    drop_dead(sub)
+                    drop_dead(stmts)
                     rep.other.append(f"None sentinel `{t}` in {sc + '.' if sc else ''}{fn.name} threaded into the {leaves} branch(es) that set it")
                     changed = True
                     break
@@ -1611,8 +1630,8 @@ def _pure(e, stable) -> bool:
         return e.id in stable
     if isinstance(e, (ast.Tuple, ast.List, ast.Set)):
         return all(_pure(x, stable) for x in e.elts)
-    if isinstance(e, ast.Attribute):  # Enum member
-        return isinstance(e.value, ast.Name) and e.value.id[:1].isupper()
+    if isinstance(e, ast.Attribute):  # Enum member; or a read of the object's own attribute (state: see _reads_state / _no_effect_between)
+        return isinstance(e.value, ast.Name) and (e.value.id[:1].isupper() or e.value.id == "self")
     if isinstance(e, ast.Subscript) and isinstance(e.value, ast.Name) and e.value.id.startswith("row__") and isinstance(e.slice, ast.Constant):
         return e.value.id in stable  # a position of a row local introduced by N27 (only ever read by position)
     if isinstance(e, ast.Compare):
@@ -1676,7 +1695,7 @@ def propagate_fresh_locals(modules, known, rep):
                 suspends = isinstance(fn, ast.AsyncFunctionDef)
                 if not any(m in reach for _, m in writers) and (not suspends or all(m == "__init__" for _, m in writers)):
                     ok, why = True, f"alias of the binding self.{attr}"
-            else:
+            if not ok:
                 # N6: side-effect-free value over operands that are not assigned after the definition
                 order0 = _preorder(fn)
                 stable = set()
@@ -1776,6 +1795,9 @@ def _no_effect_between(fn, defn, name: str) -> bool:
                 continue
             # confined to the other arm of an if the use is in?
             echain = chain(e)
+            # evaluated while building the exception of a `raise` that no handler of this function can catch: control does not come back
+            if any(isinstance(pe, ast.Raise) for pe, _ in echain) and not any(isinstance(pe, ast.Try) and pe.handlers and any(ce is x for x in pe.body) for pe, ce in echain):
+                continue
             other_arm = False
             for (pe, ce) in echain:
                 if isinstance(pe, ast.If):
